@@ -240,29 +240,11 @@ func (s *httpServer) topicsHandler(w http.ResponseWriter, req *http.Request, ps 
 			goto respond
 		}
 		for _, topicName := range topics {
-			producers, err := s.ci.GetLookupdTopicProducers(
+			producers, _ := s.ci.GetLookupdTopicProducers(
 				topicName, s.nsqadmin.getOpts().NSQLookupdHTTPAddresses)
-			if err != nil {
-				pe, ok := err.(clusterinfo.PartialErr)
-				if !ok {
-					s.nsqadmin.logf(LOG_ERROR, "failed to get topic producers - %s", err)
-					return nil, http_api.Err{502, fmt.Sprintf("UPSTREAM_ERROR: %s", err)}
-				}
-				s.nsqadmin.logf(LOG_WARN, "%s", err)
-				messages = append(messages, pe.Error())
-			}
 			if len(producers) == 0 {
-				topicChannels, err := s.ci.GetLookupdTopicChannels(
+				topicChannels, _ := s.ci.GetLookupdTopicChannels(
 					topicName, s.nsqadmin.getOpts().NSQLookupdHTTPAddresses)
-				if err != nil {
-					pe, ok := err.(clusterinfo.PartialErr)
-					if !ok {
-						s.nsqadmin.logf(LOG_ERROR, "failed to get topic channels - %s", err)
-						return nil, http_api.Err{502, fmt.Sprintf("UPSTREAM_ERROR: %s", err)}
-					}
-					s.nsqadmin.logf(LOG_WARN, "%s", err)
-					messages = append(messages, pe.Error())
-				}
 				topicChannelMap[topicName] = topicChannels
 			}
 		}
